@@ -520,13 +520,15 @@ func (d *Document) removeTOCEntries(startIndex int) {
 		element := d.Body.Elements[i]
 		if paragraph, ok := element.(*Paragraph); ok {
 			if paragraph.Properties != nil && paragraph.Properties.ParagraphStyle != nil {
-				if !strings.HasPrefix(paragraph.Properties.ParagraphStyle.Val, "TOC") {
-					// 不是TOC样式，保留后续所有元素
-					newElements = append(newElements, d.Body.Elements[i:]...)
-					break
+				if strings.HasPrefix(paragraph.Properties.ParagraphStyle.Val, "TOC") {
+					// TOC样式的段落：目录条目，删除
+					continue
 				}
 			}
 		}
+		// 第一个不是TOC样式段落的元素（无样式的段落、表格等同样如此）：目录到此结束，保留后续所有元素
+		newElements = append(newElements, d.Body.Elements[i:]...)
+		break
 	}
 
 	d.Body.Elements = newElements
